@@ -635,9 +635,10 @@ pub fn exec(plan: &ConcPlan) -> RunOut {
                     &["C03", "C11"]
                 } else if live.iter().any(|d| matches!(d.req, Req::GetChild { .. })) {
                     // found / not-found / gone must agree with AddVersion also when they overlap
-                    &["C03", "C08"]
+                    &["C03", "C08", "C02"]
                 } else {
-                    &["C03"]
+                    // only AddVersion requests: the compare-and-append itself
+                    &["C03", "C02"]
                 };
                 let mut v = viol(props, "conc.not_linearizable", format!("{why}; batch: {}; all requests incl. those failed behind an injected stall: {}", desc(&live), all));
                 // when the responses are explainable but the stored state is not, the state oracle
